@@ -89,6 +89,7 @@ class C06(LoopSpec):
     def jobs(self, tier):
         if tier == "quick":
             return [mkjob("R1", 4, True), mkjob("R2", 4, True, sym_shutdown=True), mkjob("R3", 4, False), mkjob("R4", 4, True),
+                    mkjob("R1", 3, True, with_feedbacks=True), mkjob("R3", 3, False, with_feedbacks=True),
                     mkjob("R2", 3, True, fms=True, faults=1, fault_patterns=["first", "always"],
                           fault_sites=["c1.on_disable", "c1.on_enable", "c2.on_disable", "c2.on_enable"])]
         return [mkjob("R1", 6, True), mkjob("R2", 5, True, sym_shutdown=True), mkjob("R3", 6, False),
@@ -101,7 +102,12 @@ class C06(LoopSpec):
                 "direct-switch-between-enabled-modes"]
 
     def path_fn(self, c, job):
-        H = lcm.run_robot(c, job)
+        opts = {}
+        if job["cfg"].get("with_feedbacks"):
+            from harness.c10 import add_feedbacks
+
+            opts["feedbacks"] = add_feedbacks
+        H = lcm.run_robot(c, job, opts)
         c.prove("C06.run no-exception", H.outcome[0] == "normal", info=dict(outcome=str(H.outcome)))
         if H.outcome[0] == "normal":
             lc.clauses_structure(c, H, "C06", timing=False, lifecycle=True, order=False)
@@ -124,11 +130,14 @@ class C07(LoopSpec):
         if tier == "quick":
             return [mkjob("R1", 3, True, fms="sym", faults=1), mkjob("R2", 3, True, fms="sym", faults=1, use_teleop_in_autonomous=True),
                     mkjob("R3", 3, False, fms=True, faults=2, fault_patterns=["always"]),
-                    mkjob("R1", 3, True, fms="per-refresh", faults=1, fault_patterns=["always"])]
+                    mkjob("R1", 3, True, fms="per-refresh", faults=1, fault_patterns=["always"]),
+                    # faults that are not Exception subclasses (SystemExit-like) are user-callback exceptions too
+                    mkjob("R2", 3, True, fms="sym", faults=1, fault_patterns=["first"], fault_kind="base")]
         return [mkjob("R1", 4, True, fms="sym", faults=1), mkjob("R2", 4, True, fms="sym", faults=1),
                 mkjob("R2", 3, True, fms=True, faults=2, fault_patterns=["always", "later"]),
                 mkjob("R3", 4, False, fms="sym", faults=1, sym_shutdown=True),
-                mkjob("R2", 3, True, fms="per-refresh", faults=1, fault_patterns=["always", "later"])]
+                mkjob("R2", 3, True, fms="per-refresh", faults=1, fault_patterns=["always", "later"]),
+                mkjob("R1", 4, True, fms="sym", faults=1, fault_patterns=["first", "always"], fault_kind="base")]
 
     def reach_required(self, tier):
         return ["fault-swallowed", "fault-propagated", "no-fault-fired", "iteration-auto", "iteration-teleop",
